@@ -80,6 +80,8 @@ func isoMTime(env *Env, base int64) int64 {
 	return base + env.Rnd.Int63n(500000000)
 }
 
+var hugePick int // which of the boundary sizes the next huge file gets (advances with every huge tree; seeded per run below)
+
 func genIsoTree(env *Env, sh isoShape, name string) *WNode {
 	var gen func(d int, name string) *WNode
 	dirs := 0
@@ -116,12 +118,13 @@ func genIsoTree(env *Env, sh isoShape, name string) *WNode {
 		p.Kids = append(p.Kids, &WNode{Name: fmt.Sprintf("dir%04d_%s", i, strings.Repeat("x", env.Rnd.Intn(12))), Dir: true, MTime: 1300000000 + int64(i)})
 	}
 	if sh.huge {
-		hole := int(int64(4)<<30) - 4096 + env.Rnd.Intn(4)*2048 + env.Rnd.Intn(3) - 1
-		if env.Rnd.Intn(3) == 0 {
-			hole += int(int64(4) << 30) // two splits
-		}
+		// sizes around the 32-bit extent length and the 0xFFFFF800 part size, exactly and +-1, and a few GiB more
+		const part = 0xFFFFF800
+		sizes := []int64{part, part - 1, part + 1, 0xFFFFFFFF, 1 << 32, 1<<32 + 1, 2 * part, 2*part + 1, 1<<32 + 3000 + env.Rnd.Int63n(1<<32), 9<<30 + 12345}
+		size := sizes[hugePick%len(sizes)]
+		hugePick++
 		root.Kids = append(root.Kids, &WNode{Name: "huge.bin", MTime: 1234567890,
-			Content: Content{{Kind: 'g', N: 3000, A: 7}, {Kind: 'z', N: hole}, {Kind: 'g', N: 1000 + env.Rnd.Intn(3000), A: 9}}})
+			Content: Content{{Kind: 'g', N: 3000, A: 7}, {Kind: 'z', N: int(size - 3000 - 1000)}, {Kind: 'g', N: 1000, A: 9}}})
 		if env.Rnd.Intn(2) == 0 {
 			root.Kids = append(root.Kids, &WNode{Name: "after.bin", MTime: 1234567891, Content: Content{{Kind: 'g', N: 5000, A: 3}}})
 		}
@@ -435,6 +438,7 @@ func oddTimes(t *WNode) bool {
 
 func runIso(env *Env) error {
 	time.Local = time.UTC
+	hugePick = int(env.Seed % 10) // the seed decides where the cycle through the ten boundary sizes starts (a quick run of 120 trees covers all)
 	base, err := os.MkdirTemp("", "viso")
 	if err != nil {
 		return err
@@ -498,7 +502,7 @@ func runIso(env *Env) error {
 		if env.Tier == "thorough" && i%40 == 17 {
 			sh.wide = 300
 		}
-		sh.huge = i == 4 || (env.Tier == "thorough" && i%30 == 8)
+		sh.huge = (i%10 == 4 && i < 100) || (env.Tier == "thorough" && i%30 == 8)
 		ps3 := env.Rnd.Intn(3) == 0
 		rootName := []string{"img", "My Game", "game-dir_1", "日本", "a?b", strings.Repeat("v", 40)}[env.Rnd.Intn(6)]
 		tree := genIsoTree(env, sh, rootName)
